@@ -58,6 +58,17 @@ func VerifH_C04_L2_restart() {
 		t := metav1.NewTime(lu)
 		jc.Spec.Schedule.LastUpdated = &t
 	}
+	// an optional notAfter bound, and one arbitrary instant W that matches the expression
+	hasNAF := vz.Bool("hasNotAfter")
+	var naf time.Time
+	if hasNAF {
+		naf = vz.InstantNear("notAfter")
+		t := metav1.NewTime(naf)
+		jc.Spec.Schedule.Constraints = &execution.ScheduleContraints{NotAfter: &t}
+	}
+	w0 := vz.InstantSec("w")
+	expr.HasW = true
+	expr.W = w0
 	lister.Items = []*execution.JobConfig{jc}
 	Clock = fakes.Clock{}
 	vz.NowFn = func() time.Time { return start }
@@ -97,6 +108,34 @@ func VerifH_C04_L2_restart() {
 		}
 		if hasLU {
 			vz.Assert(e.ts.After(lu), "C04/L2/nothing-before-last-schedule-change")
+		}
+		if hasNAF {
+			vz.Assert(!e.ts.After(naf), "C04/L2/notAfter")
+		}
+	}
+	// completeness: a match that is still due after the restart (after the last recorded run,
+	// inside the tolerated downtime, after the last schedule change, inside the window, not in
+	// the future) is caught up, unless the per-pass cap was reached first
+	due := vz.And(!w0.After(now), true)
+	if hasLS {
+		due = vz.And(due, vz.And(w0.After(ls), w0.After(start.Add(-time.Duration(thSecs)*time.Second))))
+	} else {
+		due = vz.And(due, w0.After(start))
+	}
+	if hasLU {
+		due = vz.And(due, w0.After(lu))
+	}
+	if hasNAF {
+		due = vz.And(due, !w0.After(naf))
+	}
+	fired := false
+	for _, e := range rec.enq {
+		fired = vz.Or(fired, e.ts.Equal(w0))
+	}
+	if int64(len(rec.enq)) < maxCount {
+		vz.Assert(vz.Implies(due, fired), "C04/L2/due-time-is-caught-up")
+		if hasNAF && hasLS {
+			vz.Cover("window-and-history")
 		}
 	}
 }
